@@ -19,7 +19,7 @@ def run(chk):
     zs = filelevel.load_zoos(pair, workloads.ZOOS)
     cases = iocommon.corpus(chk, pair, zs, thorough, per_zoo=(8 if thorough else 3))
     # more pages per chunk: page size 1 with several records, two row groups
-    g = zoolib.Gen(chk.rng, mode="mixed")
+    g = zoolib.Gen(chk.rng, mode="mixed", lens=(0, 1, 2, 3, 4, 5), p_nil=0.2)      # lists averaging more than one element
     extra = []
     for name in workloads.ZOOS:
         z = zs.get(name)
